@@ -8,10 +8,12 @@ import (
 	"os"
 	"strings"
 
+	"github.com/free5gc/go-upf/internal/verif/c14"
 	"github.com/free5gc/go-upf/internal/verif/c19"
 )
 
 var checks = map[string]func(tier string){
+	"C14": c14.Run,
 	"C19": c19.Run,
 }
 
